@@ -23,18 +23,29 @@ theorem plainTrees_map {α} (g : α → Tree) : ∀ l : List α, plainTrees (l.m
   | [] => rfl
   | a :: rest => by simp only [List.map, plainTrees, plainTrees_map g rest]
 
-theorem tagOf_empty (id : Nat) : tagOf {} [] id = .plain := by
-  simp [tagOf, posIn, FS.isFn]
+theorem tagIn_empty (id : Nat) : tagIn {} .body id = .plain := by
+  simp [tagIn, FS.isFn]
 
 theorem treeOfF_empty (nodes : List Blocks.Node) : ∀ (fuel id : Nat),
-    treeOfF {} [] nodes fuel id = plainTree (treeOf nodes fuel id)
-  | 0, id => by simp [treeOfF, treeOf, plainTree, plainTrees, tagOf_empty]
+    treeOfF {} nodes fuel .body id = plainTree (treeOf nodes fuel id)
+  | 0, id => by simp [treeOfF, treeOf, plainTree, plainTrees, tagIn_empty, FTag.isList]
   | fuel + 1, id => by
-    simp only [treeOfF, treeOf, plainTree, tagOf_empty, plainTrees_map]
+    simp only [treeOfF, treeOf, plainTree, tagIn_empty, FTag.isList, Bool.false_eq_true, if_false, plainTrees_map]
     congr 1
     apply List.map_congr_left
     intro a _
     exact treeOfF_empty nodes fuel a
+
+mutual
+theorem plainTree_listCount : ∀ t : Tree, (plainTree t).listCount = 0
+  | .node n cs => by simp [plainTree, FTree.listCount, FTag.isList, plainTrees_listCount cs]
+theorem plainTrees_listCount : ∀ ts : List Tree, FTree.listCountL (plainTrees ts) = 0
+  | [] => by simp [plainTrees, FTree.listCountL]
+  | t :: rest => by simp [plainTrees, FTree.listCountL, plainTree_listCount t, plainTrees_listCount rest]
+end
+
+theorem monitor_empty (st : St) (t : Tree) : monitorFires {} st (plainTree t) = false := by
+  simp [monitorFires, plainTree_listCount]
 
 /-! ### the inline phase over the default table -/
 
@@ -53,18 +64,18 @@ theorem inlinePhaseF_off (guard : Bool) (refs : Option (List Bytes)) (env : GM.I
 /-! ### no FootnoteLink is decoded -/
 
 mutual
-theorem inlineTreeF_off (src : Bytes) : ∀ n : GM.Inl.Node, inlineTreeF false src n = inlineTree src n
+theorem inlineTreeF_off (m : Nat) (src : Bytes) : ∀ n : GM.Inl.Node, inlineTreeF false m src n = inlineTree src n
   | .text .. => by simp [inlineTreeF, inlineTree]
-  | .codeSpan kids => by simp [inlineTreeF, inlineTree, inlineTreesF_off src kids]
-  | .emphasis lv kids => by simp [inlineTreeF, inlineTree, inlineTreesF_off src kids]
-  | .link im d t kids => by simp [inlineTreeF, inlineTree, inlineTreesF_off src kids]
+  | .codeSpan kids => by simp [inlineTreeF, inlineTree, inlineTreesF_off m src kids]
+  | .emphasis lv kids => by simp [inlineTreeF, inlineTree, inlineTreesF_off m src kids]
+  | .link im d t kids => by simp [inlineTreeF, inlineTree, inlineTreesF_off m src kids]
   | .autoLink .. => by simp [inlineTreeF, inlineTree]
   | .rawHTML .. => by simp [inlineTreeF, inlineTree]
   | .delim .. => by simp [inlineTreeF, inlineTree]
   | .label .. => by simp [inlineTreeF, inlineTree]
-theorem inlineTreesF_off (src : Bytes) : ∀ ns : List GM.Inl.Node, inlineTreesF false src ns = inlineTrees src ns
+theorem inlineTreesF_off (m : Nat) (src : Bytes) : ∀ ns : List GM.Inl.Node, inlineTreesF false m src ns = inlineTrees src ns
   | [] => by simp [inlineTreesF, inlineTrees]
-  | n :: rest => by simp [inlineTreesF, inlineTrees, inlineTreeF_off src n, inlineTreesF_off src rest]
+  | n :: rest => by simp [inlineTreesF, inlineTrees, inlineTreeF_off m src n, inlineTreesF_off m src rest]
 end
 
 /-! ### the tree in front of the transformer is GM.Convert.docTree's -/
@@ -93,7 +104,8 @@ theorem parseDocF_off (guard : Bool) (uc : List (Nat × (Bool × Bool))) (src : 
   cases runT (paragraphTransformers guard) src with
   | error e => rfl
   | ok st =>
-    simp only [Except.map, liftErr, bind, Except.bind, listKids, treeOfF_empty, docTreeF_plain]
+    simp only [Except.map, liftErr, bind, Except.bind, listKids, treeOfF_empty, monitor_empty, docTreeF_plain,
+      Bool.false_eq_true, if_false]
     cases docTree guard { refs := st.pc.refs, uc := uc } src (treeOf st.nodes st.nodes.length 0) with
     | error e => rfl
     | ok t => simp [finishDoc, pure, Except.pure]
